@@ -45,3 +45,10 @@ func verifBool(b bool) string {
 	}
 	return "f"
 }
+
+func verifPkg(r *Runtime) string {
+	if r.Package == nil {
+		return ""
+	}
+	return r.Package.Name
+}
